@@ -90,6 +90,21 @@ Theorem sort_merge_usable :
 Proof. exact sort_merge_usable_l. Qed.
 Print Assumptions sort_merge_usable.
 
+(* Termination.  On every well-formed world (every world reachable by valid operations) the model's
+   SortMerge returns: it never yields Hang -- the outcome a fuel-bounded loop gives when the code's loop
+   would not stop, such as the Extend(l, l) that a mergeSort returning its argument for a list of two or
+   more elements would cause -- and never panics.  Likewise SortQuick. *)
+Theorem sort_merge_terminates :
+  forall lt w E l, WF w E -> (l < lfresh w)%nat ->
+    SortMerge lt l w <> Hang /\ SortMerge lt l w <> Panic /\ exists w', SortMerge lt l w = Ret tt w'.
+Proof. exact sort_merge_terminates_l. Qed.
+Print Assumptions sort_merge_terminates.
+
+Theorem sort_quick_terminates :
+  forall lt w E l, WF w E -> (l < lfresh w)%nat -> exists w', SortQuick lt l w = Ret tt w'.
+Proof. exact sort_quick_terminates_l. Qed.
+Print Assumptions sort_quick_terminates.
+
 (* SortQuick = pop all; sort.SliceStable; re-append.  For every sorter meeting the stable-sort contract
    (permutation, sorted, equal keys keep their relative order): permutation of the same elements,
    sorted, STABLE on element handles, well-formed, owned by the receiver, other lists untouched. *)
